@@ -160,7 +160,7 @@ def check_props(cid, timeout=900):
 
 # ------------------------------------------------------------------ evaluating the model inside Coq
 
-_tok = re.compile(r"\s*(?:(\d+)|([A-Za-z_][A-Za-z_0-9'.]*)|(%[A-Za-z_]+)|([\[\]();,]))")
+_tok = re.compile(r"\s*(?:(\d+)|([A-Za-z_][A-Za-z_0-9'.]*)|(%[A-Za-z_]+)|(\{\||\|\}|:=|[\[\]();,]))")
 
 
 def parse_coq_value(text):
@@ -211,6 +211,23 @@ def parse_coq_value(text):
                     return items
                 if t2 != ("p", ";"):
                     raise ValueError(f"expected ; or ] got {t2}")
+        if t == ("p", "{|"):
+            rec = {}
+            while True:
+                name = peek()
+                i[0] += 1
+                if name == ("p", "|}"):
+                    return rec
+                if peek() != ("p", ":="):
+                    raise ValueError(f"expected := got {peek()}")
+                i[0] += 1
+                rec[name[1]] = expr()
+                t2 = peek()
+                i[0] += 1
+                if t2 == ("p", "|}"):
+                    return rec
+                if t2 != ("p", ";"):
+                    raise ValueError(f"expected ; or |}} got {t2}")
         if t == ("p", "("):
             items = [expr()]
             while peek() == ("p", ","):
@@ -227,7 +244,7 @@ def parse_coq_value(text):
         args = []
         while True:
             t = peek()
-            if t is None or t[0] == "p" and t[1] in "];,)":
+            if t is None or t[0] == "p" and t[1] in ("]", ";", ",", ")", "|}", ":="):
                 break
             args.append(atom())
         if args:
